@@ -72,7 +72,7 @@ AcceptTable(e, g, ord, idx) ==
     IF e.kind # g.kind THEN "Kind"
     ELSE IF e.cols # g.cols THEN "Columns"
     ELSE IF e.name # g.name THEN "Name"
-    ELSE IF idx /\ e.iname # g.iname THEN "IndexName"
+    ELSE IF idx /\ e.iname # g.iname /\ e.iname # "*" /\ g.iname # "*" THEN "IndexName"      \* "*": the partitions disagree on the name (unspecified)
     ELSE IF Len(e.rows) # Len(g.rows) THEN "RowCount"
     ELSE IF ord /\ Rows(e, idx) # Rows(g, idx) THEN "Rows"
     ELSE IF ~ord /\ ~SameBag(Rows(e, idx), Rows(g, idx)) THEN "RowsBag"
